@@ -136,6 +136,9 @@ def gen_cases(ctx, n, prop):
             else:
                 c["logp_faults"] = [[ch, r.randint(0, total_evals), "rec"], [ch, r.randint(3, total_evals), "nan_logp"]]
             c["fault_kind"] = kind
+            # scripted faults are a function of the point (harness): starting points must differ
+            # between initialisation attempts for a retry to be able to succeed
+            c["random_init"] = True
             c["script"] = [list(x) for x in r.choice([SCRIPTS[0], SCRIPTS[1], SCRIPTS[5], [["sleep_ms", 30], ["abort"]]])]
         if prop == "C12":
             # place the pause at a chosen point of a chosen chain's loop
@@ -228,7 +231,9 @@ def audit(c, o, prop, reference):
     if oc.get("kind") == "trace" and chain_failed:
         bad.append("a chain reported an error but wait_timeout returned Trace")
     # prefix / bitwise equality with the reference (sequential, unperturbed) run of the same seed
-    if reference is not None and oc.get("trace") is not None and not faulty:
+    # (the harness attaches scripted faults to chains in creation order, which need not be the
+    # chain order of the reference run: no comparison for cases with scripted density faults)
+    if reference is not None and oc.get("trace") is not None and not faulty and not c.get("logp_faults"):
         ref = reference.get("outcome", {}).get("trace")
         if ref is not None:
             for i, ch in enumerate(oc["trace"]):
